@@ -42,6 +42,11 @@ def showOptInt : Option Int → String
   | none => "none"
   | some m => toString m
 
+partial def showPTree : PTree → String
+  | .leaf i => toString i
+  | .un op a => "(un " ++ Sexp.quote op ++ " " ++ showPTree a ++ ")"
+  | .bin op a b => "(bin " ++ Sexp.quote op ++ " " ++ showPTree a ++ " " ++ showPTree b ++ ")"
+
 def handle (s : Sexp) : D String :=
   match s with
   | .list [.atom "loop", imin, imax, istop, .list res] => do
@@ -114,6 +119,23 @@ def handle (s : Sexp) : D String :=
           "(" ++ Sexp.quote sf.rep ++ " (" ++ " ".intercalate ((unfoldF sf).map fun c =>
             "(" ++ " ".intercalate (c.map fun x => Sexp.quote x.rep) ++ ")") ++ "))"
         pure ("(" ++ Sexp.quote f.rep ++ " " ++ " ".intercalate per ++ ")")
+  | .list [.atom "parse", tbl, .list els] => do
+      -- (parse body|head|headtheory|del ((ops...) ...))  operands are numbered in order
+      let (t, d) ← match tbl with
+        | .atom "body" => pure (bodyTable, docBody)
+        | .atom "head" => pure (headTablePy, docHead)
+        | .atom "headtheory" => pure (headTableTheory, docHead)
+        | .atom "del" => pure (delTable, docDel)
+        | s => dfail "table" s
+      let elems ← els.mapM fun e => match e with
+        | .list ops => do pure (← ops.mapM decStr)
+        | s => dfail "ops" s
+      let elems := (elems.zip (List.range elems.length)).map fun (ops, i) => ({ ops := ops, term := i } : UElem)
+      let showT := fun (r : Option PTree) => match r with | some t => showPTree t | none => "none"
+      let m := match stackParse t elems with
+        | .ok tr => showPTree tr
+        | .error e => "ERR " ++ e.tag
+      pure (m ++ " @@ " ++ showT (docRead d (toToks elems)))
   | s => .error s!"unknown command: {s.toStr}"
 
 partial def loop (inp : IO.FS.Stream) (out : IO.FS.Stream) : IO Unit := do
